@@ -104,6 +104,17 @@ def handle (op : String) (args : List String) : Option Ans :=
       match n.toNat?, hexArgs rest with
       | some n, some (k :: cs) => some (ghModelInc n k cs, ghSpec n k cs.flatten)
       | _, _ => none
+    | "generichash_emptykey", n :: rest =>
+      -- a key that is present but empty: `some []` handed to the model's one-shot and incremental functions
+      match n.toNat?, hexArgs rest with
+      | some n, some cs =>
+        let one := outBytes (Model.Blake2b.generichash n cs.flatten (some []))
+        let inc := match Model.Blake2b.generichashInit (some []) n none none with
+          | .ok st => outBytes (Model.Blake2b.generichashFinal (cs.foldl Model.Blake2b.generichashUpdate st) n)
+          | .err => "err"
+          | .panic => "panic"
+        some ((if one == inc then one else "mismatch model one-shot " ++ one ++ " incremental " ++ inc), "n/a")
+      | _, _ => none
     | "generichash_obj", n :: rest =>
       match n.toNat?, hexArgs rest with
       | some n, some (k :: cs) => some (ghModelInc n k cs, ghSpec n k cs.flatten)
